@@ -989,3 +989,22 @@ def run_case(case, obs):
         RUN[kind](case, obs)
     finally:
         mon.drain(obs)
+        # head-room statistics of the regimes where a back-end is known to break (judged all the same) are kept
+        # apart, so that the runner's "worst err/tol" shows the regimes in which the property is expected to hold
+        for k_ in [k_ for k_ in obs.worst if k_.endswith(("_smallscale", "_dask_lowmodes"))]:
+            obs.info.setdefault("defect_regime_worst", {})[k_] = obs.worst.pop(k_)
+
+
+def evidence_extra(results, extras):
+    out = {"refusal_reasons": {}, "ambiguous_reasons": {}, "defect_regime_worst": {}}
+    for r in results:
+        if r["status"] in ("refused", "ambiguous"):
+            d = out["refusal_reasons" if r["status"] == "refused" else "ambiguous_reasons"]
+            d[str(r["reason"])] = d.get(str(r["reason"]), 0) + 1
+        info = r.get("info") or {}
+        if r["case"].get("kind") == "discover":
+            out["classes_advertising_solver_kwargs"] = info.get("advertise_solver_kwargs")
+            out["classes_advertising_random_state"] = info.get("advertise_random_state")
+        for k, v in (info.get("defect_regime_worst") or {}).items():
+            out["defect_regime_worst"][k] = max(out["defect_regime_worst"].get(k, 0.0), v)
+    return out
